@@ -22,6 +22,9 @@ import Tup.Model.Db
                           allocation) then, only for large subspaces on a miss,
                           `sampleBlock₁, cleanup₁, sampleBlock₂, cleanup₂, sampleBlock₃, cleanup₃,
                           sampleBlock₄` (each its own block / statement), then the error.
+                          Every `sampleBlock` first *repeats the lookup* inside its transaction (fix of
+                          D8): run alone it always misses (`sampleRounds_spec`), interleaved with other
+                          processes it is what makes "one description, one id" hold (C03).
 -/
 namespace Tup
 
@@ -100,6 +103,8 @@ inductive Outcome
   | fresh                         -- enumerable subspace, a free id was inserted
   | recycled (victim : Row)       -- enumerable subspace, full: the victim row was overwritten
   | sampled (removed : List Nat)  -- large subspace: rejection sample succeeded (after these clean-up removals)
+  | foundLate (removed : List Nat) -- large subspace: the repeated lookup of a sampling block found the
+                                   -- description (bound by another process meanwhile; never when run alone)
   | exhausted (removed : List Nat) -- large subspace: `RuntimeError("Failed to find an unused id…")`
 deriving DecidableEq, Repr, Inhabited
 
@@ -179,15 +184,32 @@ def sampleScan (s : Space) (u : Sub) (t : Table) : Nat → List Nat → Except E
     else if cs.isEmpty then .ok (some c)
     else .error (.badChoice "sample: candidates after the free one")
 
-/-- One `with self.conn: BEGIN IMMEDIATE …` rejection-sampling block (lines 623–641). -/
-def sampleBlock (req : Req) (now : Nat) (samples : List Nat) (db : Db) : Except Err (Db × Option Nat) :=
-  match sampleScan req.space req.sub (db.ids req.space) 8 samples with
-  | .error e => .error e
-  | .ok none => .ok (db, none)
-  | .ok (some id) =>
-    match setId db id req.desc now with
-    | .ok db' => .ok (db', some id)
+/-- Result of one sampling block. -/
+inductive SampleRes
+  | none                 -- 8 candidates, all taken
+  | inserted (id : Nat)  -- a free candidate was bound
+  | found (id : Nat)     -- the repeated lookup found the description: recency refreshed, id returned
+deriving DecidableEq, Repr, Inhabited
+
+/-- One `with self.conn: BEGIN IMMEDIATE …` block of the sampling loop: the lookup is repeated inside
+    the transaction (on a hit: `UPDATE atime`, return — `pick` is the row `fetchone()` answered with),
+    then rejection sampling. -/
+def sampleBlock (req : Req) (now pick : Nat) (samples : List Nat) (db : Db) : Except Err (Db × SampleRes) :=
+  let s := req.space
+  let t := db.ids s
+  let hits := t.byDesc s req.sub req.desc
+  if !hits.isEmpty then
+    if hits.any (fun r => r.id == pick) then
+      .ok (db.setIds s (t.setAtime pick now), .found pick)
+    else .error (.badChoice "late hit: returned id is not a row with this description in the subspace")
+  else
+    match sampleScan s req.sub t 8 samples with
     | .error e => .error e
+    | .ok none => .ok (db, .none)
+    | .ok (some id) =>
+      match setId db id req.desc now with
+      | .ok db' => .ok (db', .inserted id)
+      | .error e => .error e
 
 /-- `[0.75, 0.6, 0.5, 0]`; `int(subspace_size * frac)` is `size * p / q` (exact below 2^53, K checks). -/
 def fracs : List (Option (Nat × Nat)) := [some (3, 4), some (3, 5), some (1, 2), none]
@@ -195,24 +217,26 @@ def fracs : List (Option (Nat × Nat)) := [some (3, 4), some (3, 5), some (1, 2)
 def fracLimit (cfg : Cfg) (size : Nat) (pq : Nat × Nat) : Nat := min (size * pq.1 / pq.2) cfg.maxIds
 
 /-- The `for frac in [...]` loop: sampling block, then (unless `frac == 0`) a clean-up statement.
-    Returns the final database, the id if one was found, and the ids removed by the clean-ups. -/
-def sampleRounds (cfg : Cfg) (req : Req) (now : Nat) :
+    Returns the final database, the result of the last sampling block, and the ids removed by the
+    clean-ups. -/
+def sampleRounds (cfg : Cfg) (req : Req) (now pick : Nat) :
     List (Option (Nat × Nat)) → List (List Nat) → List (List Nat) → Db → List Nat →
-    Except Err (Db × Option Nat × List Nat)
-  | [], _, _, db, acc => .ok (db, none, acc)
+    Except Err (Db × SampleRes × List Nat)
+  | [], _, _, db, acc => .ok (db, .none, acc)
   | f :: fs, ss, rs, db, acc =>
-    match sampleBlock req now (ss.headD []) db with
+    match sampleBlock req now pick (ss.headD []) db with
     | .error e => .error e
-    | .ok (db', some id) =>
-      if ss.tail.isEmpty && rs.isEmpty then .ok (db', some id, acc)
+    | .ok (db', .inserted id) =>
+      if ss.tail.isEmpty && rs.isEmpty then .ok (db', .inserted id, acc)
       else .error (.badChoice "rounds: choices left over after success")
-    | .ok (db', none) =>
+    | .ok (db', .found id) => .ok (db', .found id, acc)
+    | .ok (db', .none) =>
       match f with
-      | none => .ok (db', none, acc)
+      | none => .ok (db', .none, acc)
       | some pq =>
         match cleanup db' req.space req.sub (fracLimit cfg (req.space.subspaceSize req.sub) pq) (rs.headD []) with
         | .error e => .error e
-        | .ok db'' => sampleRounds cfg req now fs ss.tail rs.tail db'' (acc ++ rs.headD [])
+        | .ok db'' => sampleRounds cfg req now pick fs ss.tail rs.tail db'' (acc ++ rs.headD [])
 
 /-- Result of `get_id`: an id, or the `RuntimeError` (whose clean-ups have happened). -/
 inductive GetRes
@@ -226,9 +250,10 @@ def getId (cfg : Cfg) (db : Db) (req : Req) (now : Nat) (ch : GetChoice) : Excep
   | .error e => .error e
   | .ok (db', .done id out) => .ok (db', .id id, out)
   | .ok (db', .miss) =>
-    match sampleRounds cfg req now fracs ch.samples ch.removed db' [] with
+    match sampleRounds cfg req now ch.pick fracs ch.samples ch.removed db' [] with
     | .error e => .error e
-    | .ok (db'', some id, removed) => .ok (db'', .id id, .sampled removed)
-    | .ok (db'', none, removed) => .ok (db'', .noUnusedId, .exhausted removed)
+    | .ok (db'', .inserted id, removed) => .ok (db'', .id id, .sampled removed)
+    | .ok (db'', .found id, removed) => .ok (db'', .id id, .foundLate removed)
+    | .ok (db'', .none, removed) => .ok (db'', .noUnusedId, .exhausted removed)
 
 end Tup
